@@ -26,9 +26,22 @@ impl Drop for Server {
     }
 }
 
+/// ports are handed out from a per-process range: the server binds with SO_REUSEPORT, so two servers given
+/// the same "free" port would silently share incoming connections
 pub fn free_port() -> u16 {
-    let l = TcpListener::bind("127.0.0.1:0").unwrap();
-    l.local_addr().unwrap().port()
+    static NEXT: std::sync::atomic::AtomicU32 = std::sync::atomic::AtomicU32::new(0);
+    loop {
+        let n = NEXT.fetch_add(1, std::sync::atomic::Ordering::SeqCst);
+        let base = 20000 + (std::process::id() % 400) * 100;
+        let port = (base + n % 100 + (n / 100) * 7) as u16;
+        if port < 1024 {
+            continue;
+        }
+        if let Ok(l) = TcpListener::bind(("127.0.0.1", port)) {
+            drop(l);
+            return port;
+        }
+    }
 }
 
 pub fn start_server(store: Arc<dyn Cache + Send + Sync>, item_limit: u32, conn_limit: u32, timeout_secs: u32) -> Server {
